@@ -5,6 +5,10 @@ CONSTANTS
   ItemSet = {1}
   NodeCounts = {1}
   DefaultConc = 16
+  MaxCalls = 1
+  HistClients = {}
+  HistOutcomes = {}
+  Design = "asks"
 INVARIANTS OfferedInFull SuccessIff ReturnsByTimeout Independence ScatterPartition
 CONSTRAINT HWM
 POSTCONDITION TraceAccepted
